@@ -963,7 +963,38 @@ def run_driver(binary, universes, batch=200, batch_timeout=120, single_timeout=1
     return outs, 0, "", hangs
 
 
+TINY_TOTAL = 3 * 16 ** 4
+
+
+def tiny_universe(index, uid):
+    """The index-th universe of the EXHAUSTIVE family `tiny`: packages p0 = {s0, s1}, p1 = {s2, s3}; version sets = the three
+    non-empty subsets of each package; every solvable has at most one requirement and at most one constrains entry, each on
+    a version set of the OTHER package (16 combinations per solvable, cycles included); the root requires one of the three
+    version sets of p0.  3 * 16^4 = 196608 universes."""
+    root = index % 3
+    index //= 3
+    vsets = [{"id": 0, "name": 0, "match": [0]}, {"id": 1, "name": 0, "match": [1]}, {"id": 2, "name": 0, "match": [0, 1]},
+             {"id": 3, "name": 1, "match": [2]}, {"id": 4, "name": 1, "match": [3]}, {"id": 5, "name": 1, "match": [2, 3]}]
+    solvables = []
+    for sid in range(4):
+        d = index % 16
+        index //= 16
+        other = 3 if sid < 2 else 0
+        r, c = d % 4, d // 4
+        solvables.append({"id": sid, "name": 0 if sid < 2 else 1,
+                          "deps": {"req": [{"s": other + r - 1}] if r else [], "con": [other + c - 1] if c else []}})
+    pk = lambda n, c: {"name": n, "exists": True, "cands": c, "rank": c, "favored": None, "locked": None, "excluded": [], "hint": "none"}
+    return {"id": uid, "packages": [pk(0, [0, 1]), pk(1, [2, 3])], "solvables": solvables, "version_sets": vsets, "unions": [],
+            "problem": {"req": [{"s": root}], "con": [], "soft": []}, "family": "tiny"}
+
+
 def generate(seed, family, n, start_id=0):
+    if family == "tiny":
+        # quick: a window of n consecutive indices chosen by the seed; n >= TINY_TOTAL: the whole family
+        if n >= TINY_TOTAL:
+            return [tiny_universe(i, start_id + i) for i in range(TINY_TOTAL)]
+        off = (seed * 7919 * n) % TINY_TOTAL
+        return [tiny_universe((off + i * 37) % TINY_TOTAL, start_id + i) for i in range(n)]
     import zlib
     rng = random.Random((seed * 1000003) ^ zlib.crc32(family.encode()))
     return [dict(gen_universe(rng, start_id + i, FAMILIES[family]), family=family) for i in range(n)]
